@@ -920,7 +920,198 @@ def enum_eol(tier, seed):
                                            "mode": mode, "choices": list(ch)}
 
 
+# the link loop at work while application threads change what it walks ------
+# The run loops call dispatch() and collect() on the controller for every
+# exchange; both walk the access point table and the socket lists.  An
+# application thread that makes progress at that moment (accept() returning a
+# new connection, bind / close, connect, resolve) changes those structures.
+# An exception other than the ones the run loop handles kills the link thread
+# WITHOUT a termination: every blocked caller then waits forever.  Here one
+# controller is driven by a link thread (dispatch of the peer's PDUs, collect,
+# a reactive scripted peer: CC for CONNECT, DM for DISC, SDRES for SDREQ)
+# while 1-2 application threads run a short program, under every schedule
+# choice list of a depth; finally the link thread terminates the link.
+LOOP_PROGS = ["accept", "accept-two", "accept-close", "connect-send-close",
+              "ldl-open-close", "resolve", "accept+ldl", "connect+accept"]
+
+
+def run_loop_race(case, ctx):
+    import nfc.llcp.llc as L
+    P = nfc.llcp.pdu
+    s = vsched.Sched(case["choices"], seed=0, step_budget=40000)
+    vsched.activate(s)
+    out = {"link": None, "apps": {}}
+    DLC, LDL = nfc.llcp.DATA_LINK_CONNECTION, nfc.llcp.LOGICAL_DATA_LINK
+    prog = case["prog"]
+    parts = prog.split("+")
+    try:
+        llc = L.LogicalLinkController()
+        llc.cfg["send-miu"] = 128
+        llc.cfg["llcp-dpc"] = 0
+        events = [[] for _ in range(6)]      # PDUs the peer sends per round
+        listener = None
+        if any(p.startswith("accept") for p in parts):
+            listener = nfc.llcp.Socket(llc, DLC)
+            listener.bind(35)
+            listener.listen(2)
+            events[0].append(P.Connect(35, 41, 128, 2))
+            if "accept-two" in parts:
+                events[0].append(P.Connect(35, 42, 128, 1))
+            if "accept-close" in parts:
+                events[2].append(P.Information(35, 41, 0, 0, b"data"))
+        if any(p.startswith("ldl") for p in parts) or "accept+ldl" == prog:
+            base = nfc.llcp.Socket(llc, LDL)
+            base.bind(33)
+            events[1].append(P.UnnumberedInformation(33, 20, b"dgram"))
+
+        def app_accept():
+            c = listener.accept()
+            c.send(b"hello", nfc.llcp.MSG_DONTWAIT)
+            if "accept-two" in parts:
+                c2 = listener.accept()
+                c2.send(b"hello", nfc.llcp.MSG_DONTWAIT)
+            if "accept-close" in parts:
+                listener.close()
+                c.recv()
+
+        ksock = None
+        if any(p.startswith("connect") for p in parts):
+            # exists before the link can end (calls on sockets made after
+            # the termination are the known post-termination finding)
+            ksock = nfc.llcp.Socket(llc, DLC)
+            ksock.bind(36)
+
+        def app_connect():
+            k = ksock
+            k.connect(40)
+            k.send(b"x")
+            k.close()
+
+        def app_ldl():
+            for i in range(2):
+                if out["link"] is not None:
+                    return      # an application stops when the link is gone
+                d = nfc.llcp.Socket(llc, LDL)
+                d.bind(None)
+                d.sendto(b"x", 20, nfc.llcp.MSG_DONTWAIT)
+                d.close()
+
+        def app_resolve():
+            llc.resolve("urn:nfc:sn:x")
+            llc.resolve("urn:nfc:sn:y")
+
+        bodies = {"accept": app_accept, "accept-two": app_accept,
+                  "accept-close": app_accept,
+                  "connect-send-close": app_connect, "connect": app_connect,
+                  "ldl-open-close": app_ldl, "ldl": app_ldl,
+                  "resolve": app_resolve}
+
+        def wrap(name, fn):
+            def body():
+                try:
+                    fn()
+                    out["apps"][name] = "returned"
+                except nfc.llcp.Error:
+                    out["apps"][name] = "error"
+                except (vsched.Abort, vsched.StepBudget):
+                    raise
+                except BaseException as e:
+                    out["apps"][name] = e
+            return body
+
+        def link():
+            try:
+                for rnd in range(len(events)):
+                    for p in events[rnd]:
+                        llc.dispatch(p)
+                    for _ in range(2):
+                        q = llc.collect()
+                        nxt = events[min(rnd + 1, len(events) - 1)]
+                        for m in (list(q) if q is not None and
+                                  q.name == "AGF" else [q]):
+                            if m is None:
+                                continue
+                            if m.name == "CONNECT":
+                                nxt.append(P.ConnectionComplete(
+                                    m.ssap, m.dsap, 128, 1))
+                            elif m.name == "DISC":
+                                nxt.append(P.DisconnectedMode(
+                                    m.ssap, m.dsap, 0))
+                            elif m.name == "SNL" and m.sdreq:
+                                nxt.append(P.ServiceNameLookup(
+                                    1, 1, sdres=[(tid, 17)
+                                                 for tid, name in m.sdreq]))
+                            elif m.name == "I":
+                                nxt.append(P.ReceiveReady(
+                                    m.ssap, m.dsap, (m.ns + 1) % 16))
+                llc.mac = None
+                llc.terminate("test")
+                out["link"] = "done"
+            except (vsched.Abort, vsched.StepBudget):
+                raise
+            except BaseException as e:
+                out["link"] = e
+                # what the run loop's caller is left with: nothing shuts the
+                # access points down
+        names = []
+        for p in parts:
+            names.append(p)
+            s.spawn(wrap(p, bodies[p]), "app-" + p)
+        s.spawn(link, "link")
+        s.settle()
+        s.sleep(5.0)
+        s.settle()
+        blocked = [repr(t) for t in s.blocked()]
+    finally:
+        s.shutdown()
+        vsched.activate(None)
+    ctx.set_class("loop-race/" + prog)
+    if any(out["apps"].get(n) == "returned" for n in names):
+        ctx.nontrivial()
+    if isinstance(out["link"], BaseException):
+        raise unexpected(out["link"], "link-loop-raises",
+                         detail="%s, schedule %r" % (prog, case["choices"]))
+    for name in names:
+        r = out["apps"].get(name)
+        if isinstance(r, BaseException):
+            raise unexpected(r, "racing-call-raises", detail=name)
+        if r is None:
+            raise Violation("racing-call-blocks-forever",
+                            "%s: thread %s never returned after the link "
+                            "ended, schedule %r: %r"
+                            % (prog, name, case["choices"], blocked))
+        ctx.label("%s:%s" % (name, r))
+
+
+def enum_loop_race(tier, seed):
+    import itertools
+    n = 9 if tier == "quick" else 13
+    for prog in LOOP_PROGS:
+        for choices in itertools.product((0, 1), repeat=n):
+            yield {"prog": prog, "choices": list(choices)}
+        # three contenders: also third-thread picks on a thinner grid
+        if "+" in prog:
+            for choices in itertools.product((0, 1, 2), repeat=n - 3):
+                yield {"prog": prog, "choices": list(choices)}
+
+
 LEGS = [
+    Leg("loop-race", run=run_loop_race, enum=enum_loop_race, exhaustive=True,
+        shards_quick=8, shards_thorough=16,
+        rule="one controller; a link thread runs six run-loop rounds "
+             "(dispatch of the scripted peer's PDUs, two collect() calls, the "
+             "peer reacting with CC / DM / SDRES / RR) and then terminate(), "
+             "while 1-2 application threads make progress on the structures "
+             "the loop walks: accept() returning one / two new connections, "
+             "closing the listener, connect + send + close, opening and "
+             "closing connection-less sockets, resolve, and pairs of these; "
+             "every schedule choice list in {0,1}^9 (quick) / {0,1}^13 "
+             "(thorough), for the pairs also {0,1,2}^6 / {0,1,2}^10.  Oracle: "
+             "the link thread raises nothing (an exception the run loop does "
+             "not handle ends the loop without terminating the link), every "
+             "application thread returns or raises nfc.llcp.Error.  "
+             "Non-trivial = an application program ran to its end while the "
+             "link loop was at work."),
     Leg("dlc-eol", run=run_eol, enum=enum_eol, exhaustive=True,
         shards_quick=16, shards_thorough=16,
         rule="an established data link connection (connecting / accepted "
